@@ -241,12 +241,29 @@ impl P<'_> {
     }
 }
 
+/// Every script element of the page is evaluated in document order, as a browser does: each must be a valid
+/// assignment, and what the hydrating client finds is the value of the LAST one.
 pub fn extract_and_decode(html: &str) -> Result<Vec<Unit>, String> {
-    let (body, rest) = script_body(html)?;
-    // nothing of the script may leak into the page after the element
-    if rest.contains("__LEPTOS_I18N") || rest.contains("\"values\"") {
-        return Err("the script element ends early: its tail is rendered as page content".into());
+    let mut page = html.to_string();
+    let mut last = None;
+    let mut n = 0;
+    loop {
+        let (body, rest) = script_body(&page)?;
+        n += 1;
+        last = Some(decode_one(&body).map_err(|e| format!("script element #{n}: {e}"))?);
+        if !rest.to_ascii_lowercase().contains("<script") {
+            // nothing of the script may leak into the page after the last element
+            if rest.contains("__LEPTOS_I18N") || rest.contains("\"values\"") {
+                return Err("the script element ends early: its tail is rendered as page content".into());
+            }
+            break;
+        }
+        page = rest;
     }
+    Ok(last.unwrap())
+}
+
+fn decode_one(body: &str) -> Result<Vec<Unit>, String> {
     let chars: Vec<char> = body.chars().collect();
     let mut p = P { s: &chars, i: 0 };
     p.ws();
